@@ -6,6 +6,7 @@ import JsonC.Lemmas.TokenerDoc10
 import JsonC.Lemmas.TokenerXGap
 import JsonC.Lemmas.TokenerXLit
 import JsonC.Lemmas.TokenerQStr
+import JsonC.Lemmas.TokenerXCtl
 namespace JsonC.Tokener
 open JsonC Rfc8259 Rfc8259X
 
